@@ -3,10 +3,10 @@
    model (model/Spring.v) states equilibrium on the UN-reduced network; the
    implementation's reduced solve is tied to it by the certificate of
    harness/props/c04.py (every option assignment, exhaustive for small receivers).
-   Uniqueness of the equilibrium (agreement with an independent direct-stiffness
-   solve) is validated by that oracle, not proved. *)
+   Uniqueness of what every tube sees (proofs/SpringUnique.v): with positive
+   stiffnesses any two equilibria give every tube the same top displacement. *)
 From Coq Require Import QArith List Bool ZArith.
-From SV Require Import model.Spring proofs.SpringProofs.
+From SV Require Import model.Spring proofs.SpringProofs proofs.SpringUnique.
 Import ListNotations.
 Open Scope Q_scope.
 
@@ -55,3 +55,22 @@ Theorem C04_disconnected_panel_balance :
   nth_error (panels r) p = Some pn -> ropt r = Cut -> below_manifold pn (u_man u p) (tops u p pn) == 0.
 Proof. exact disconnected_panel_balance. Qed.
 Print Assumptions C04_disconnected_panel_balance.
+
+(* uniqueness: with positive stiffnesses any two equilibria give every tube the same top displacement *)
+Theorem C04_tube_tops_unique :
+  forall r u v, good_receiver r -> Equil r u -> Equil r v ->
+  forall p pn q t, nth_error (panels r) p = Some pn -> nth_error (tubes pn) q = Some t -> u_top u p q == u_top v p q.
+Proof. exact tube_tops_unique. Qed.
+Print Assumptions C04_tube_tops_unique.
+
+(* seen from its manifold a panel is a spring of non-negative stiffness *)
+Theorem C04_panel_is_a_spring :
+  forall r u v, good_receiver r -> Equil r u -> Equil r v ->
+  forall p pn, nth_error (panels r) p = Some pn ->
+  below_manifold pn (u_man u p) (tops u p pn) - below_manifold pn (u_man v p) (tops v p pn)
+    == - panel_stiffness pn * (u_man u p - u_man v p) /\ 0 <= panel_stiffness pn.
+Proof. exact panel_is_spring. Qed.
+Print Assumptions C04_panel_is_a_spring.
+
+Example C04_hypotheses_satisfiable : good_receiver ex_receiver.
+Proof. exact ex_receiver_good. Qed.
